@@ -1,6 +1,7 @@
 import PydjinniModel.Drv.C05
 import PydjinniModel.Props.C11Closed
 import PydjinniModel.Props.C05Program
+import PydjinniModel.Props.C16Program
 /-! Driver handlers for property C11: `handle op request` answers one JSON request.
 
 `c11.closed`: is the program of a front request (files in finish order) dependency-closed in the sense of
@@ -56,8 +57,48 @@ def hyp (req : Json) : Except String Json := do
   let nodes := reachNodes cfg fs (4 * fl.length * fl.length + 8) [(normPath r, r)] []
   pure (Json.mkObj [("holds", progChecks cfg fs builtins r nodes), ("nodes", nodes.length)])
 
+/-- `c11.prog`: the declarative whole-program specification `programDiags` (Front/SpecProgram.lean) for a request, whether
+    the hypotheses of `front_eq_programDiags` hold (`visitsChecks`, names pairwise distinct), and — when an
+    implementation observation is supplied — whether the implementation reported exactly `programDiags`
+    (as a multiset of class, file, position) or, for colliding names, raised at `programCollision`. -/
+def prog (req : Json) : Except String Json := do
+  let cfg ← req.getObjVal? "cfg" >>= decodeCfg
+  let files ← req.getObjValAs? (Array Json) "files"
+  let fl ← files.toList.mapM decodeFile
+  let bs ← req.getObjValAs? (Array Json) "builtins"
+  let builtins ← bs.toList.mapM decodeDef
+  let root ← req.getObjValAs? String "root"
+  let r := (parsePath root).2
+  let fs : FS := { files := fl }
+  let good := visitsChecks cfg fs builtins r
+  let visits := rootVisits cfg fs r
+  let nodup := decide ((programKeys builtins visits).Nodup)
+  let spec := programDiags cfg fs builtins r
+  let specSites := spec.map (fun d => (d.cls, d.file, d.pos))
+  let coll := programCollision builtins visits
+  let base := [("hypotheses", Json.bool (good && nodup)), ("good", Json.bool good), ("nodup", Json.bool nodup), ("spec", Json.arr (spec.map diagJ).toArray)]
+  match req.getObjVal? "impl" with
+  | .error _ => pure (Json.mkObj base)
+  | .ok impl =>
+    let kind ← impl.getObjValAs? String "kind"
+    if !good then pure (Json.mkObj (base ++ [("verdict", Json.str "not-applicable")])) else
+    if !nodup then
+      let ok := kind == "raised" && (match decodeImplDiag impl, coll with
+        | .ok d, some (f, p) => d.cls == "TypeResolvingException" && d.file == f && d.pos == p
+        | _, _ => false)
+      pure (Json.mkObj (base ++ [("verdict", Json.str (if ok then "holds" else "duplicate-not-raised-at-first-collision"))]))
+    else
+      let idiags ← (if kind == "diags" then do
+          let a ← impl.getObjValAs? (Array Json) "diags"
+          a.toList.mapM decodeImplDiag
+        else pure [])
+      let isites := idiags.map (fun a => (a.cls, a.file, a.pos))
+      let ok := (kind == "ok" || kind == "diags") && isites.isPerm specSites
+      pure (Json.mkObj (base ++ [("verdict", Json.str (if ok then "holds" else "differs-from-programDiags"))]))
+
 def handle (op : String) (req : Json) : Except String Json :=
   match op with
+  | "c11.prog" => prog req
   | "c11.closed" => closed req
   | "c11.hyp" => hyp req
   | _ => throw s!"unknown op {op}"
